@@ -18,6 +18,7 @@ limitations under the License.
 
 #include <algorithm>
 #include <memory>
+#include <numeric>
 #include <vector>
 
 #include "libcellml/component.h"
@@ -280,10 +281,16 @@ bool ComponentEntity::doEquals(const EntityPtr &other) const
         if ((componentEntity != nullptr)
             && pFunc()->mEncapsulationId == componentEntity->encapsulationId()
             && pFunc()->mComponents.size() == componentEntity->componentCount()) {
+            // Match every child component with a distinct child component of the other entity.
+            std::vector<size_t> unmatchedIndex(componentEntity->componentCount());
+            std::iota(unmatchedIndex.begin(), unmatchedIndex.end(), 0);
             for (const auto &component : pFunc()->mComponents) {
-                if (!componentEntity->containsComponent(component, false)) {
+                auto match = std::find_if(unmatchedIndex.begin(), unmatchedIndex.end(),
+                                          [=](size_t index) -> bool { return componentEntity->component(index)->equals(component); });
+                if (match == unmatchedIndex.end()) {
                     return false;
                 }
+                unmatchedIndex.erase(match);
             }
             return true;
         }
